@@ -169,11 +169,56 @@ def replay_h_write_append_options(ic, ist, rgo, req, have, part, same_part):
         shutil.rmtree(d, ignore_errors=True)
 
 
+WITH_ATTRS = [False]
+
+
+def h_write_custom_metadata(ic: int, req: int, with_attrs: bool, with_custom: bool) -> bool:
+    """
+    pre: 0 <= ic <= 3 and 0 <= req <= 2
+    post: __return__
+    """
+    # custom_metadata and the frame's .attrs, each present or not: every user key reaches the footer, attrs travel
+    # under PANDAS_ATTRS beside them
+    WITH_ATTRS[0] = (with_attrs, with_custom)
+    try:
+        return _h_write_new_options(ic, 0, 7, req, False, False)
+    finally:
+        WITH_ATTRS[0] = False
+
+
+def replay_h_write_custom_metadata(ic, req, with_attrs, with_custom):
+    import os, shutil, tempfile
+    import pandas as pd
+    import fastparquet
+    d = tempfile.mkdtemp(prefix="c16-")
+    try:
+        dn = os.path.join(d, "ds")
+        df = pd.DataFrame({"x": [1, 2, 3, 4]})
+        if with_attrs:
+            df.attrs = {"unit": "m"}
+        fastparquet.write(dn, df, file_scheme=SCHEMES[req], compression=COMP[ic],
+                          custom_metadata={"a": "b"} if with_custom else None)
+        pf = fastparquet.ParquetFile(dn)
+        kv = pf.key_value_metadata
+        if with_custom and kv.get("a") != "b":
+            return True, "custom_metadata={'a': 'b'}%s: the footer holds keys %r" % (
+                " on a frame with attrs" if with_attrs else "", sorted(kv))
+        if with_attrs and pf.to_pandas().attrs != {"unit": "m"}:
+            return True, "frame attrs %r come back as %r" % ({"unit": "m"}, pf.to_pandas().attrs)
+        return False, "metadata kept"
+    finally:
+        shutil.rmtree(d, ignore_errors=True)
+
+
 def h_write_new_options(ic: int, ist: int, rgo: int, req: int, part: bool, times96: bool) -> bool:
     """
     pre: 0 <= ic <= 3 and 0 <= ist <= 3 and 1 <= rgo <= 1 << 40 and 0 <= req <= 2
     post: __return__
     """
+    return _h_write_new_options(ic, ist, rgo, req, part, times96)
+
+
+def _h_write_new_options(ic, ist, rgo, req, part, times96):
     # write(..., append=False): the options reach write_simple / write_multi and make_metadata under their own names
     ic, ist, req = _pick(ic, 0, 3), _pick(ist, 0, 3), _pick(req, 0, 2)
     comp, stats, scheme = COMP[ic], STATS[ist], SCHEMES[req]
@@ -195,10 +240,14 @@ def h_write_new_options(ic: int, ist: int, rgo: int, req: int, part: bool, times
     writer.check_column_names = lambda *a, **k: None
     data = _Frame(["x", "k"])
     data.index = None
+    with_attrs, with_custom = WITH_ATTRS[0] if WITH_ATTRS[0] else (False, True)
+    if with_attrs:
+        data.attrs = {"unit": "m"}
     try:
         writer.write("d", data, row_group_offsets=rgo, compression=comp, file_scheme=scheme, open_with=ow, mkdirs=mk,
                      partition_on=partition_on, append=False, stats=stats, write_index=False,
-                     times="int96" if times96 else "int64", has_nulls=False, custom_metadata={"a": "b"})
+                     times="int96" if times96 else "int64", has_nulls=False,
+                     custom_metadata={"a": "b"} if with_custom else None)
     finally:
         (writer.write_simple, writer.write_multi, writer.make_metadata, writer.get_fs, writer.check_column_names,
          writer.reset_row_idx) = saved
@@ -211,7 +260,9 @@ def h_write_new_options(ic: int, ist: int, rgo: int, req: int, part: bool, times
             list(m["ignore_columns"]) == (partition_on if scheme != "simple" else [])):
         return False
     kv = [(k.key, k.value) for k in (fmd.key_value_metadata or [])]
-    if ("a", "b") not in kv:
+    if with_custom and ("a", "b") not in kv:
+        return False
+    if with_attrs != (("PANDAS_ATTRS", '{"unit": "m"}') in kv):
         return False
     ok = (w["row_group_offsets"] == rgo and w["compression"] is comp and w["stats"] is stats and
           w["open_with"] is ow and w["append"] is False and w["fmd"] is fmd and w["data"] is data)
